@@ -73,6 +73,7 @@ func resultVal(rs []Val, sig *types.Signature) Val {
 
 func (x *Exec) callWith(fr *Frame, st *State, in *ssa.Call, cc *ssa.CallCommon, fn Val, args []Val, k func(*State, Val)) {
 	sig := cc.Signature()
+	k2 := func(int) func(*State, Val) { return k }
 	if cc.IsInvoke() {
 		x.invoke(fr, st, cc, fn, args, k)
 		return
@@ -109,6 +110,18 @@ func (x *Exec) callWith(fr *Frame, st *State, in *ssa.Call, cc *ssa.CallCommon, 
 			k(st, r)
 			return
 		}
+	}
+	if strings.HasPrefix(fn.Org, "tableelem:") && !fn.Idx.IsZero() {
+		// element of a constant function table: one path per entry
+		tbl := x.L.funcTables[strings.TrimPrefix(fn.Org, "tableelem:")]
+		for k, f := range tbl {
+			st2 := st.clone()
+			st2.assumeCond(Eq(fn.Idx, IntLit(int64(k))))
+			x.paths++
+			fr2 := fr.clone()
+			x.staticCall(fr2, st2, cc, f, nil, args, k2(k))
+		}
+		return
 	}
 	// dynamic call of an unknown func value
 	desc := x.exprText(cc.Value, cc.Pos())
@@ -161,6 +174,21 @@ func (x *Exec) foreignCall(fr *Frame, st *State, ev *CallEvent, sig *types.Signa
 			if _, ok := rs[i].Typ.Underlying().(*types.Signature); ok {
 				rs[i].From = ev
 			}
+		}
+		for _, sr := range x.cs.IfaceEns {
+			if sr.Method != ev.Method || !strings.HasSuffix(ev.IfaceName, sr.Owner) {
+				continue
+			}
+			env := &Env{x: x, st: st, vars: map[string]Val{}, pkg: x.pkgOf(fr.fn), results: rs, hasRes: true}
+			for i, pn := range sr.Params {
+				if i < len(args) {
+					env.vars[pn] = args[i]
+				}
+			}
+			for _, c := range sr.Ens {
+				st.assume(x.evalBool(env, c.Expr))
+			}
+			x.funcsUsed["assume:interface contract: "+sr.Owner+"."+sr.Method+" "+sr.Ens[0].Src] = true
 		}
 	}
 	ev.Results = rs
@@ -250,6 +278,7 @@ func (x *Exec) staticCall(fr *Frame, st *State, cc *ssa.CallCommon, callee *ssa.
 			for i := 0; i < sig.Results().Len(); i++ {
 				rs = append(rs, x.uninterp(st, fmt.Sprintf("lf_%s_%d", sanitize(name), i), args, sig.Results().At(i).Type()))
 			}
+			x.libFacts(st, name, args, rs)
 			k(st, resultVal(rs, sig))
 			return
 		}
@@ -379,7 +408,9 @@ func (x *Exec) applyContract(fr *Frame, st *State, cc *ssa.CallCommon, callee *s
 			x.havocComponent(st, m)
 		}
 	default:
-		x.havocHeap(st, "callee "+key)
+		if !x.L.noHeapEffects(callee, 0) {
+			x.havocHeap(st, "callee "+key)
+		}
 	}
 	for i := range args {
 		if args[i].Clo != nil {
@@ -468,7 +499,10 @@ func (x *Exec) invoke(fr *Frame, st *State, cc *ssa.CallCommon, recv Val, args [
 			return
 		}
 	}
-	ev := &CallEvent{Kind: "invoke", Recv: recv.T, Method: mname, Args: args, Desc: desc, Org: recv.Org}
+	if mname == "Close" {
+		x.disown(st, recv, "closed")
+	}
+	ev := &CallEvent{Kind: "invoke", Recv: recv.T, Method: mname, Args: args, Desc: desc, Org: recv.Org, IfaceName: itName}
 	// sink rules: preconditions at this call site
 	for _, sr := range x.cs.Sinks {
 		if sr.Method != mname || !x.sinkMatches(sr, recv, cc.Value.Type()) {
@@ -897,4 +931,80 @@ func (x *Exec) havocHeapOnly(st *State) {
 	st.esc = map[*Cell]bool{}
 	x.havocHeap(st, "consumer")
 	st.esc = saved
+}
+
+// libFacts: the few things assumed about otherwise unspecified deterministic
+// library functions.
+func (x *Exec) libFacts(st *State, name string, args, rs []Val) {
+	switch name {
+	case "github.com/opencontainers/go-digest.Parse":
+		// the empty string is not a digest
+		if len(args) == 1 && len(rs) == 2 && args[0].T.Sort == "String" {
+			st.assume(Implies(Eq(args[0].T, StrLit("")), Not(Eq(rs[1].T, NilIface))))
+			st.assume(Implies(Eq(rs[1].T, NilIface), Eq(rs[0].T, args[0].T)))
+			x.funcsUsed["assume:go-digest: Parse(\"\") fails; Parse(s) returns Digest(s) on success"] = true
+		}
+	case "(github.com/opencontainers/go-digest.Digest).Validate":
+		if len(args) == 1 && len(rs) == 1 && args[0].T.Sort == "String" {
+			st.assume(Implies(Eq(args[0].T, StrLit("")), Not(Eq(rs[0].T, NilIface))))
+			x.funcsUsed["assume:go-digest: Digest(\"\").Validate() fails"] = true
+		}
+	}
+}
+
+// noHeapEffects: a conservative syntactic check that f (and the repo
+// functions it calls statically) never writes to memory other than its own
+// locals and never calls code we cannot see.
+func (L *Loaded) noHeapEffects(f *ssa.Function, depth int) bool {
+	if v, ok := L.pureMemo[f]; ok {
+		return v
+	}
+	if depth > 6 || len(f.Blocks) == 0 {
+		return false
+	}
+	if L.pureMemo == nil {
+		L.pureMemo = map[*ssa.Function]bool{}
+	}
+	L.pureMemo[f] = true // optimistic for recursion
+	ok := true
+	for _, b := range f.Blocks {
+		for _, in := range b.Instrs {
+			switch in := in.(type) {
+			case *ssa.Store:
+				if _, local := rootAddr(in.Addr).(*ssa.Alloc); !local {
+					ok = false
+				}
+			case *ssa.MapUpdate, *ssa.Go, *ssa.Send, *ssa.Defer:
+				ok = false
+			case *ssa.Call:
+				if in.Call.IsInvoke() {
+					ok = false
+					continue
+				}
+				switch c := in.Call.Value.(type) {
+				case *ssa.Builtin:
+					switch c.Name() {
+					case "delete", "clear", "copy", "close":
+						ok = false
+					}
+				case *ssa.Function:
+					if L.isRepoFunc(c) {
+						if !L.noHeapEffects(c, depth+1) {
+							ok = false
+						}
+					} else if !isPurePackage(c) || nondetPkgs[FuncPkgPath(c)] {
+						name := c.String()
+						if _, known := libTable[name]; !known {
+							ok = false
+						}
+					}
+					// passing the address of a local to a callee lets it write only that local
+				default:
+					ok = false
+				}
+			}
+		}
+	}
+	L.pureMemo[f] = ok
+	return ok
 }
